@@ -434,6 +434,9 @@ fn check_prog(pi: usize, p: &Prog, pairs: bool, out: &mut Out) {
     }
     for s in &scheds {
         out.runs += 1;
+        if out.runs % 16 == 1 {
+            mc::watch::progress(|| line(pi, p, s));
+        }
         out.edges += t0.edges as u64;
         match mc::catch(|| interrupted(p, &t0, s)) {
             Ok(Ok(st)) => {
